@@ -209,8 +209,53 @@ def _spec_op(op):
     return o
 
 
+def _options_history(ctx):
+    """A patch means what its own options make of its path texts, whichever patch read the same text first."""
+    from jsonpath import JSONPatch
+
+    n = 0
+    for enc, dec, kw in (("%20b", " b", {"uri_decode": True}), ("%41", "A", {"uri_decode": True}), ("\\u0041", "A", {"unicode_escape": False})):
+        for order in ("other-first", "default-first"):
+            for opname in ("remove", "replace", "test", "add"):
+                n += 1
+                raw = f"k{n}{enc}"                      # a path text no patch has read before
+                other_name, default_name = (f"k{n}{dec}", raw) if "uri_decode" in kw else (raw, f"k{n}{dec}")
+                doc = {other_name: "other", default_name: "default", "z": 0}
+                if other_name == default_name:
+                    continue
+                op = {"op": opname, "path": "/" + raw}
+                if opname in ("replace", "add"):
+                    op["value"] = "NEW"
+                elif opname == "test":
+                    op["value"] = None
+                results = {}
+                for which in (("other", "default") if order == "other-first" else ("default", "other")):
+                    k = kw if which == "other" else {}
+                    target = other_name if which == "other" else default_name
+                    o = dict(op)
+                    if opname == "test":
+                        o["value"] = which
+                    r = core.outcome(lambda: JSONPatch([o], **k).apply(copy.deepcopy(doc)))
+                    want = copy.deepcopy(doc)
+                    if opname == "remove":
+                        del want[target]
+                    elif opname in ("replace", "add"):
+                        want[target] = "NEW"
+                    results[which] = (r, want, target)
+                for which, (r, want, target) in results.items():
+                    ctx.count("options-history")
+                    got = {"ok": core.canon(r["ok"])} if "ok" in r else {"err": r["err"]}
+                    if got != {"ok": core.canon(want)}:
+                        ctx.violation("a patch addresses the member its own pointer options make of the path text, whichever patch read the same text first",
+                                      {"doc": doc, "op": op, "options": kw if which == "other" else {}, "order": order, "member meant": target}, got, {"ok": core.canon(want)})
+
+
 def evaluate(ctx, cases):
     from jsonpath import JSONPatch
+
+    if not getattr(ctx, "_options_history_done", False):
+        ctx._options_history_done = True
+        _options_history(ctx)
 
     reqs, meta = [], []
     for c in cases:
